@@ -81,6 +81,11 @@ type world struct {
 	gate    bool        // directed gate case (see caseSpec.gate)
 	nefOk   bool        // the last update passed a valid executable
 	sigLine string      // signer tags of the last update
+	// NeoFSAlphabet designations made so far: the list is in force from block `from` on (neo-go stores a designation
+	// executed in block N under index N+1; getDesignatedByRole(role, index) answers the latest one stored at or below
+	// index, and the contracts ask for CurrentIndex()+1 = the index of the block they execute in)
+	desigs     []desig
+	lastHeight uint32 // block of the last designation
 }
 
 func pubs(c *chainx.Chain, ids []int) [][]byte {
@@ -652,6 +657,20 @@ func (w *world) execOp(line string) (string, string) {
 			w.t.Fatalf("raw load failed")
 		}
 		return line, w.obs(true, q)
+	case "designate":
+		// re-designation of the NeoFS Alphabet by the committee, in a block of its own; the next operation goes into
+		// the block immediately after it
+		w.run.Count("op.designate")
+		if w.kind == "alphabet" {
+			fs, _, _, _ = w.fillAlpha(fs, nil)
+		}
+		w.designate(parseIDs(attr(fs, "role")))
+		for i, f := range fs {
+			if strings.HasPrefix(f, "h=") {
+				fs[i] = fmt.Sprintf("h=%d", int(w.lastHeight)-1)
+			}
+		}
+		return strings.Join(fs, " "), w.obs(true, q)
 	case "update":
 		w.run.Count("op.update")
 		var signers []neotest.Signer
@@ -661,7 +680,6 @@ func (w *world) execOp(line string) (string, string) {
 				signers = append(signers, w.signer(tag))
 			}
 		}
-		role := parseIDs(attr(fs, "role"))
 		nef := w.newNef
 		w.nefOk, w.sigLine = attr(fs, "nef") != "bad", sig
 		if attr(fs, "nef") == "bad" {
@@ -690,6 +708,11 @@ func (w *world) execOp(line string) (string, string) {
 		} else {
 			w.run.Count("out.update.fault")
 		}
+		// the Alphabet in force for the block the update executed in (not what the op line says)
+		role := w.roleInForce(r.Height)
+		if w.lastHeight != 0 && r.Height == w.lastHeight+1 {
+			w.run.Count("update.right-after-designation")
+		}
 		w.after(pend, signers, role, r)
 		if w.kind == "alphabet" {
 			w.alphaMonitor(pend.pre, pend.preVer, data, led, blobs, ir, r, nameBefore)
@@ -700,7 +723,23 @@ func (w *world) execOp(line string) (string, string) {
 	return "", ""
 }
 
-// designate sets the NeoFSAlphabet role before the case's operations (main-chain contracts).
+type desig struct {
+	from uint32
+	ids  []int
+}
+
+// roleInForce: the NeoFS Alphabet a transaction executed in block b has to obey.
+func (w *world) roleInForce(b uint32) []int {
+	var cur []int
+	for _, d := range w.desigs {
+		if d.from <= b {
+			cur = d.ids
+		}
+	}
+	return cur
+}
+
+// designate sets the NeoFSAlphabet role (set-up of main-chain / Alphabet cases, and the `designate` op): one block.
 func (w *world) designate(role []int) {
 	if len(role) == 0 {
 		return
@@ -716,9 +755,12 @@ func (w *world) designate(role []int) {
 		}
 		pk = append(pk, accs[id].PublicKey())
 	}
-	if r := w.c.DesignateAlphabet(pk); !r.Halt {
+	r := w.c.DesignateAlphabet(pk)
+	if !r.Halt {
 		w.t.Fatalf("designateAsRole: %s", r.Fault)
 	}
+	w.desigs = append(w.desigs, desig{from: r.Height + 1, ids: role})
+	w.lastHeight = r.Height
 }
 
 // ---------------------------------------------------------------- cases
